@@ -19,7 +19,8 @@ def run(tier, seed):
              S("Wheat", "Clay", seed=seed + 4, crop_kw={"SwitchGDD": 1})]
     perms = list(itertools.permutations(range(5)))
     extras = [[], [["Station", 0, "str"]], [["Wind", 99, "num"]], [["Station", 2, "str"], ["Wind", 4, "num"]],
-              [["SnowDepth", 99, "nan"]], [["Flag", 1, "none"], ["SnowDepth", 3, "nan"]]]
+              [["SnowDepth", 99, "nan"]], [["Flag", 1, "none"], ["SnowDepth", 3, "nan"]],
+              [[" ReferenceET", 0, "num"]], [["Precipitation ", 99, "num"], ["mintemp", 2, "num"]]]
     indexes = ["range", "shifted", "datetime", "labels", "datetime_shifted", "datetime_noon", "datetime_other", "year", "const"]
     pads = [{}, {"pad_before": 37}, {"pad_before": 400, "pad_after": 200}, {"pad_sparse": True}, {"pad_before": 300, "gap_before": "@start"}]
     space = [(p, e, i, d) for p in perms for e in extras for i in indexes for d in pads]
@@ -46,7 +47,7 @@ def run(tier, seed):
             add(sc, rnd.sample(space, 40))
     else:
         # covering sample: every permutation position, every extra, index kind and padding at least once
-        combos = [(perms[0], extras[0], "year", pads[1]), (perms[2], extras[0], "const", pads[2]), (perms[0], extras[0], "range", pads[3]), (perms[5], extras[1], "shifted", pads[4]), (perms[0], extras[0], "shifted", pads[1]), (perms[0], extras[1], "datetime", pads[0]), (perms[0], extras[2], "labels", pads[2]),
+        combos = [(perms[0], extras[6], "range", pads[0]), (perms[4], extras[7], "shifted", pads[1]), (perms[0], extras[0], "year", pads[1]), (perms[2], extras[0], "const", pads[2]), (perms[0], extras[0], "range", pads[3]), (perms[5], extras[1], "shifted", pads[4]), (perms[0], extras[0], "shifted", pads[1]), (perms[0], extras[1], "datetime", pads[0]), (perms[0], extras[2], "labels", pads[2]),
                   (perms[0], extras[4], "range", pads[0]), (perms[7], extras[5], "shifted", pads[1])]
         combos += rnd.sample(space, 30)
         add(fast, combos)
